@@ -47,7 +47,7 @@ def gen_pair(rng, tier, force_small=None):
         top = big if rng.random() < 0.25 else big // 3
         m, n = int(rng.integers(0, top + 1)), int(rng.integers(0, top + 1))
     scale = gen.pick_scale(rng)
-    kind = None if rng.random() < 0.5 else str(rng.choice(["grid", "grid", "dyadic", "equal", "neartie", "float", "h0", "decimal", "decimal"]))
+    kind = None if rng.random() < 0.5 else str(rng.choice(["grid", "grid", "dyadic", "equal", "neartie", "float", "h0", "decimal", "decimal", "negint"]))
     A = gen.diagram(rng, m, kind, scale)
     B = gen.diagram(rng, n, kind, scale)
     if kind == "h0" and m and n:
